@@ -12,8 +12,14 @@ import (
 )
 
 func parseIgnoreFile(rootPath string) *ignorefiles.Ruleset {
-	// Look for .terraformignore at our root path/src
-	file, err := os.Open(filepath.Join(rootPath, ".terraformignore"))
+	// Look for .terraformignore at our root path/src. Only a regular file
+	// (possibly behind a symlink) is read: opening a fifo would block.
+	ignorePath := filepath.Join(rootPath, ".terraformignore")
+	if info, err := os.Stat(ignorePath); err == nil && !info.Mode().IsRegular() {
+		fmt.Fprintf(os.Stderr, "Error reading .terraformignore, default exclusions will apply: not a regular file \n")
+		return ignorefiles.DefaultRuleset
+	}
+	file, err := os.Open(ignorePath)
 	defer file.Close()
 
 	// If there's any kind of file error, punt and use the default ignore patterns
